@@ -122,6 +122,9 @@ SEEDS: dict[str, list[tuple]] = {
                   ("delete_study", 0), ("create_study", "A", (MAX,))],
     "wait-run-fin": [("create_study", "A", (MIN,)), ("create_trial", 0, "wait"), ("create_trial", 0, None),
                      ("set_state", 1, S.COMPLETE, (2.0,)), ("read_waiting", 0, False)],
+    # two RUNNING trials: per-study checks that look at "the other trials" (distribution
+    # compatibility) must not depend on which of them was created first
+    "two-running": [("create_study", "A", (MIN,)), ("create_trial", 0, None), ("create_trial", 0, None)],
     # an empty WAITING-filtered read moves the in-memory scan cursor past the RUNNING trial
     "polled": [("create_study", "A", (MIN,)), ("create_trial", 0, None), ("read_waiting", 0, False)],
     "param": [("create_study", "A", (MIN,)), ("create_trial", 0, None), ("set_param", 0, "p", "f", 0.5),
@@ -426,7 +429,7 @@ def run(tier: str, replay: str | None = None) -> int:
     return ctx.finish(
         exhaustive=True,
         rule="every history up to the depth bound per (configuration, seeded non-initial state), de-duplicated on (model state, implementation digest)",
-        extra={"bounds": {"quick": "fast backends: depth 3 from empty, 2 from 9 seeded states (full alphabet, full observation); SQLite-backed: depth 2 / 1 (small alphabet, light observation)",
+        extra={"bounds": {"quick": "fast backends: depth 3 from empty, 2 from 10 seeded states (full alphabet, full observation); SQLite-backed: depth 2 / 1 (small alphabet, light observation)",
                           "thorough": "mem: depth 4 / 3 full alphabet; jlist, jfile-sym, grpc(mem): 4 / 3 small alphabet; other fast: 3 / 2 full; SQLite-backed: 3 / 2 small alphabet, light observation"}[tier]},
     )
 
